@@ -1,0 +1,39 @@
+//! Verification hooks (cargo feature `verif`, off by default). Add-only instrumentation used by
+//! the external property-based test harness: a per-thread counter of parser productions entered,
+//! with an optional budget that turns "does not terminate" into a deterministic, catchable event.
+
+use std::cell::Cell;
+
+thread_local! {
+    static TICKS: Cell<u64> = const { Cell::new(0) };
+    static BUDGET: Cell<Option<u64>> = const { Cell::new(None) };
+}
+
+/// Payload of the unwind raised when the tick budget is exceeded.
+#[derive(Debug)]
+pub struct BudgetExceeded(pub u64);
+
+/// Reset the counter and set (or clear) the budget for this thread.
+pub fn reset(budget: Option<u64>) {
+    TICKS.with(|c| c.set(0));
+    BUDGET.with(|c| c.set(budget));
+}
+
+pub fn ticks() -> u64 {
+    TICKS.with(|c| c.get())
+}
+
+#[inline]
+pub fn tick() {
+    let n = TICKS.with(|c| {
+        let n = c.get() + 1;
+        c.set(n);
+        n
+    });
+    if let Some(b) = BUDGET.with(|c| c.get())
+        && n > b
+    {
+        BUDGET.with(|c| c.set(None));
+        std::panic::panic_any(BudgetExceeded(n));
+    }
+}
